@@ -7,12 +7,24 @@
    (Scope/Spec.v: one per descriptor, in source order, name = the name token, span from
    the header's first token to just past the closing brace, length = distinct lines of
    the function's own tokens, tokens of nested functions excluded).
+   HEADER RECOGNITION (Scope/HeaderSpec.v, Scope/LexShapes.v; Scope/HeaderProofs*.v,
+   Scope/ShapeProofs*.v): for all seven languages the matcher, run on the captured
+   patterns, is proved to return exactly the *lexically specified* headers — e.g. for the
+   C family every position where an identifier is followed by one or more balanced
+   parenthesis groups and then "{", leftmost first, non-overlapping; for Python
+   `[async] def identifier ( ... )`; for JavaScript/TypeScript `[function] identifier (...)`
+   and `[const] identifier = [async] (...) =>`; Java with `throws ...`, TypeScript with a
+   return type — so the opaque hypothesis above is replaced by the decidable condition
+   `lexically_canonical_of` ("those shapes occur exactly at the function headers"), which
+   the harness decides inside Coq (Scope/SpecCheck.v, proved sound) on generated programs.
    MISSING (validated by the generator of harness/progen.py on every run, not proved):
-   (a) that on every program of the canonical grammar the captured header patterns
-   match exactly at the function headers; (b) the Python indentation family.
-   Proofs: Scope/SpecProofs{Dyck,Pairing,Fold,Count,}.v. *)
+   that every program of the informally described canonical grammar satisfies
+   `wf_descs` and `lexically_canonical` (the grammar itself is not formalised).
+   Proofs: Scope/SpecProofs{Dyck,Pairing,Fold,Count,}.v, Scope/HeaderProofs{Dfa,Select,}.v. *)
 From Verif Require Import Base Token Lex LexProofs Headers Blocks Pairing Fold ScanFile Spec
-  SpecProofsDyck SpecProofsPairing SpecProofsFold SpecProofsCount SpecProofs.
+  SpecProofsDyck SpecProofsPairing SpecProofsFold SpecProofsCount SpecProofs
+  Regex TokEngine HeaderSpec HeaderProofsDfa HeaderProofsSelect HeaderProofs SpecCheck
+  LexShapes ShapeProofs.
 From Coq Require Import Sorted Permutation.
 
 Theorem C01_brace_pipeline_partial : forall (l : language) toks ds,
@@ -46,7 +58,76 @@ Theorem C01_pairing : forall ts ds hs, StronglySorted pos_lt ts -> wf_descs ts d
   build_scopes_from ts hs (get_blocks ts) = map scope_of ds.
 Proof. exact pairing_spec. Qed.
 
+(* ---- header recognition: the matcher on the captured C-family pattern = the lexical specification *)
+Theorem C01_headers_cfamily : forall ts : list token,
+  get_headers ts cfamily_pattern (Some cfamily_followup) = OK (lexical_headers ts) /\
+  extract_headers LC ts = OK (lexical_headers ts) /\
+  extract_headers LCpp ts = OK (lexical_headers ts) /\
+  extract_headers LCSharp ts = OK (filter (fun h => negb (java_drop ts h)) (lexical_headers ts)).
+Proof.
+  intros ts. split; [exact (cfamily_headers_spec ts)|]. split; [exact (extract_headers_C ts)|].
+  split; [exact (extract_headers_Cpp ts)|exact (extract_headers_CSharp ts)].
+Qed.
+
+(* ---- end to end, with only lexical hypotheses (each decidable; decided in Coq on every generated program) *)
+Theorem C01_cpp : forall toks ds,
+  let code := filter_tokens false toks in
+  StronglySorted pos_lt code -> filter_nocl_comment_tokens toks = [] ->
+  wf_descs code ds -> lexically_canonical code ds ->
+  scan_file LCpp toks = expected_all code ds ds.
+Proof. exact C01_cpp_lexical. Qed.
+
+Theorem C01_c : forall toks ds,
+  let code := filter_tokens false toks in
+  StronglySorted pos_lt code -> filter_nocl_comment_tokens toks = [] ->
+  wf_descs code ds -> (forall c d, In c ds -> In d ds -> ~ nested_in c d) -> lexically_canonical code ds ->
+  scan_file LC toks = expected_all code ds ds.
+Proof. exact C01_c_lexical. Qed.
+
+Theorem C01_csharp : forall toks ds,
+  let code := filter_tokens false toks in
+  StronglySorted pos_lt code -> filter_nocl_comment_tokens toks = [] ->
+  wf_descs code ds ->
+  filter (fun h => negb (java_drop code h)) (lexical_headers code) = map header_of ds ->
+  scan_file LCSharp toks = expected_all code ds ds.
+Proof. exact C01_csharp_lexical. Qed.
+
+(* ---- all seven languages: the matcher on the captured patterns = the lexical specification of LexShapes.v *)
+Theorem C01_headers_lexical : forall (l : language) (ts : list token),
+  extract_headers l ts = OK (lexical_headers_of l ts).
+Proof. exact extract_headers_lexical. Qed.
+
+(* ---- the six brace languages end to end, with only lexical hypotheses *)
+Theorem C01_brace : forall (l : language) toks ds,
+  l <> LPython -> lang_nested l = true ->
+  let code := filter_tokens false toks in
+  StronglySorted pos_lt code -> filter_nocl_comment_tokens toks = [] ->
+  wf_descs code ds -> lexically_canonical_of l code ds ->
+  scan_file l toks = expected_all code ds ds.
+Proof. exact C01_brace_lexical. Qed.
+
+Theorem C01_flat : forall (l : language) toks ds,
+  l <> LPython -> lang_nested l = false ->
+  let code := filter_tokens false toks in
+  StronglySorted pos_lt code -> filter_nocl_comment_tokens toks = [] -> wf_descs code ds ->
+  (forall c d, In c ds -> In d ds -> ~ nested_in c d) -> lexically_canonical_of l code ds ->
+  scan_file l toks = expected_all code ds ds.
+Proof. exact C01_flat_lexical. Qed.
+
+(* the boolean checkers the harness evaluates are sound for the hypotheses *)
+Theorem C01_hypotheses_decidable : forall ts ds,
+  (wf_descs_b ts ds = true -> wf_descs ts ds) /\ (lexically_canonical_b ts ds = true -> lexically_canonical ts ds).
+Proof. intros ts ds. split; [apply wf_descs_b_sound|apply lexically_canonical_b_sound]. Qed.
+
 Print Assumptions C01_brace_pipeline_partial.
+Print Assumptions C01_headers_cfamily.
+Print Assumptions C01_cpp.
+Print Assumptions C01_c.
+Print Assumptions C01_csharp.
+Print Assumptions C01_hypotheses_decidable.
+Print Assumptions C01_headers_lexical.
+Print Assumptions C01_brace.
+Print Assumptions C01_flat.
 Print Assumptions C01_c_pipeline_partial.
 Print Assumptions C01_blocks_are_dyck.
 Print Assumptions C01_pairing.
@@ -57,5 +138,6 @@ Example C01_example :
   let code := [mkTok KKeyword [105;110;116] 1 1; mkTok KName [102] 1 5; mkTok KPunct [40] 1 6; mkTok KPunct [41] 1 7;
                mkTok KPunct [123] 1 9; mkTok KName [120] 2 3; mkTok KPunct [59] 2 4; mkTok KPunct [125] 3 1] in
   scan_file LCpp code = expected_all code [mkFd 1 1 4 4 7] [mkFd 1 1 4 4 7] /\
-  expected_all code [mkFd 1 1 4 4 7] [mkFd 1 1 4 4 7] = OK [mkMeas [102] (mkLoc 1 5) (mkLoc 3 2) 3].
-Proof. vm_compute. split; reflexivity. Qed.
+  expected_all code [mkFd 1 1 4 4 7] [mkFd 1 1 4 4 7] = OK [mkMeas [102] (mkLoc 1 5) (mkLoc 3 2) 3] /\
+  wf_descs_b code [mkFd 1 1 4 4 7] = true /\ lexically_canonical_b code [mkFd 1 1 4 4 7] = true.
+Proof. vm_compute. repeat split; reflexivity. Qed.
